@@ -22,6 +22,8 @@ func init() {
 			{ID: "C04.R4", Floor: 25, Doc: "[option] ids and type-parameter reads", Run: c04r4},
 			{ID: "C04.R5", Floor: 8, Doc: "reader primitives: big-endian widths, length prefixes", Run: c04r5},
 			{ID: "C04.R6", Floor: 2, Doc: "skip-metadata uses the prepared statement's result metadata and the response's paging state", Run: c04r6},
+			{ID: "C04.R7", Floor: 10, Doc: "what a parser reads from the frame is stored into the value it returns, never into a per-iteration copy of an element", Run: c04r7},
+			{ID: "C04.R8", Floor: 2, Doc: "row scanning: the destinations handed to scanColumn start at the running count of destinations already filled (a tuple column fills several)", Run: c04r8},
 		},
 	})
 }
@@ -972,4 +974,185 @@ func bitsStr(b map[string]bool) string {
 	}
 	sort.Strings(ks)
 	return strings.Join(ks, " ")
+}
+
+// c04r7: a decoded field must land in the result. `for _, el := range xs { el.Name = f.readString() }` consumes the
+// bytes but writes into a copy that dies with the iteration: the parser returns zero values. Obligations: every
+// assignment in a framer method whose right-hand side reads from the frame and whose left-hand side is a field or
+// element path; its root must not be the value variable of an enclosing range statement over non-pointer elements
+// (unless that variable is stored back or handed on afterwards).
+func c04r7(p *Program, r *Report) {
+	n := 0
+	p.forEachFunc(false, func(fi *FuncInfo) {
+		if fi.Pkg != p.Root || fi.Decl.Recv == nil || fi.Decl.Body == nil {
+			return
+		}
+		info := fi.Pkg.TypesInfo
+		if rt := info.TypeOf(fi.Decl.Recv.List[0].Type); rt == nil || typeNameOf(rt) != "framer" {
+			return
+		}
+		readsFrame := func(e ast.Expr) bool {
+			for _, c := range callsIn(e) {
+				if fn := calleeOf(info, c); fn != nil {
+					if sig, ok := fn.Type().(*types.Signature); ok && sig.Recv() != nil && typeNameOf(sig.Recv().Type()) == "framer" && strings.HasPrefix(fn.Name(), "read") {
+						return true
+					}
+				}
+			}
+			return false
+		}
+		ast.Inspect(fi.Decl.Body, func(x ast.Node) bool {
+			as, ok := x.(*ast.AssignStmt)
+			if !ok || len(as.Lhs) != len(as.Rhs) {
+				return true
+			}
+			for i, l := range as.Lhs {
+				if !readsFrame(as.Rhs[i]) {
+					continue
+				}
+				l = ast.Unparen(l)
+				switch l.(type) {
+				case *ast.SelectorExpr, *ast.IndexExpr:
+				default:
+					continue
+				}
+				root := rootIdent(l)
+				if root == nil {
+					continue
+				}
+				n++
+				obj := info.Uses[root]
+				// is the root the value variable of an enclosing range over value elements?
+				var loop *ast.RangeStmt
+				for cur := p.Parent(as); cur != nil && cur != ast.Node(fi.Decl); cur = p.Parent(cur) {
+					if rs, isR := cur.(*ast.RangeStmt); isR && rs.Value != nil {
+						if vid, isId := rs.Value.(*ast.Ident); isId && info.Defs[vid] == obj && obj != nil {
+							loop = rs
+						}
+					}
+				}
+				name := fi.Name + " stores " + exprStr(as.Rhs[i]) + " into the result"
+				if loop == nil {
+					r.OK(as, name, exprStr(l))
+					continue
+				}
+				if _, isPtr := obj.Type().Underlying().(*types.Pointer); isPtr {
+					r.OK(as, name, exprStr(l)+" (range over pointers)")
+					continue
+				}
+				// the copy is put back or handed on later in the iteration?
+				kept := false
+				ast.Inspect(loop.Body, func(y ast.Node) bool {
+					id, isId := y.(*ast.Ident)
+					if !isId || info.Uses[id] != obj || id.Pos() < as.End() {
+						return true
+					}
+					switch par := p.Parent(id).(type) {
+					case *ast.SelectorExpr:
+						_ = par // field access of the copy: not a whole-value use
+					default:
+						kept = true
+					}
+					return true
+				})
+				r.Check(kept, as, name, exprStr(l)+" (copy stored back later)", "the value read from the frame is assigned to "+exprStr(l)+", a field of the per-iteration copy `"+root.Name+"` of a range statement: the bytes are consumed but the parsed value is lost (the result keeps zero values)")
+			}
+			return true
+		})
+	})
+	if n == 0 {
+		r.Unresolved("no parser stores a read value into a field or element")
+	}
+}
+
+// c04r8: scanColumn(bytes, column, dest) fills one destination per column, or one per tuple element, and returns how
+// many it filled. Every caller walks the destinations with a running position: it hands dest[pos:] and then advances
+// pos by the returned count. Indexing the destinations by the column index instead shifts every column after a
+// tuple column into the wrong destination.
+func c04r8(p *Program, r *Report) {
+	n := 0
+	p.forEachFunc(false, func(fi *FuncInfo) {
+		if fi.Pkg != p.Root {
+			return
+		}
+		info := fi.Pkg.TypesInfo
+		for _, c := range callsIn(fi.Decl.Body) {
+			if !isCallTo(info, c, "scanColumn") || len(c.Args) != 3 {
+				continue
+			}
+			n++
+			name := fi.Name + ": destinations handed to scanColumn start at the running position"
+			sl, ok := ast.Unparen(c.Args[2]).(*ast.SliceExpr)
+			if !ok || sl.Low == nil || sl.High != nil {
+				r.Unresolved("%s: scanColumn is not handed dest[pos:]", fi.Name)
+				continue
+			}
+			pos, ok := ast.Unparen(sl.Low).(*ast.Ident)
+			if !ok {
+				r.Bad(c, name, "the destinations start at "+exprStr(sl.Low)+", not at a running position variable")
+				continue
+			}
+			obj := info.Uses[pos]
+			// the variable the call's count is bound to
+			cnt := resultVarOf(p, c, 0)
+			loop := p.enclosing(c, fi.Decl, func(m ast.Node) bool {
+				switch m.(type) {
+				case *ast.ForStmt, *ast.RangeStmt:
+					return true
+				}
+				return false
+			})
+			if loop == nil || cnt == "" || cnt == "_" {
+				r.Unresolved("%s: scanColumn is not called in a loop that keeps its count", fi.Name)
+				continue
+			}
+			// pos is not the loop's own key/index variable
+			isLoopVar := false
+			switch l := loop.(type) {
+			case *ast.RangeStmt:
+				for _, kv := range []ast.Expr{l.Key, l.Value} {
+					if id, isId := kv.(*ast.Ident); isId && info.Defs[id] == obj {
+						isLoopVar = true
+					}
+				}
+			case *ast.ForStmt:
+				if as, isAs := l.Init.(*ast.AssignStmt); isAs {
+					for _, lh := range as.Lhs {
+						if id, isId := lh.(*ast.Ident); isId && info.Defs[id] == obj {
+							isLoopVar = true
+						}
+					}
+				}
+			}
+			// every write of pos inside the loop is `pos += cnt`; there is at least one, after the call
+			adv, other := 0, 0
+			ast.Inspect(loop, func(x ast.Node) bool {
+				switch s := x.(type) {
+				case *ast.AssignStmt:
+					for i, l := range s.Lhs {
+						if !isIdentOf(info, l, obj) {
+							continue
+						}
+						if s.Tok == token.ADD_ASSIGN && len(s.Rhs) == 1 && exprStr(ast.Unparen(s.Rhs[0])) == cnt && s.Pos() > c.End() {
+							adv++
+						} else if s.Tok == token.ASSIGN && i < len(s.Rhs) && strings.ReplaceAll(exprStr(s.Rhs[i]), " ", "") == pos.Name+"+"+cnt && s.Pos() > c.End() {
+							adv++
+						} else {
+							other++
+						}
+					}
+				case *ast.IncDecStmt:
+					if isIdentOf(info, s.X, obj) {
+						other++
+					}
+				}
+				return true
+			})
+			r.Check(!isLoopVar && adv >= 1 && other == 0, c, name, "dest["+pos.Name+":], "+pos.Name+" += "+cnt,
+				"the destinations handed to scanColumn start at "+pos.Name+", which is "+ifs(isLoopVar, "the column index of the loop", "not advanced by the number of destinations scanColumn filled")+": after a tuple column (which fills one destination per element) every later column is scanned into the wrong destination")
+		}
+	})
+	if n < 2 {
+		r.Unresolved("expected scanColumn to be called by Iter.Scan and by the scanner, found %d call(s)", n)
+	}
 }
